@@ -35,7 +35,46 @@ def units(tier):
     return [Unit("c10." + n, H, "h_" + n, includes=[GEN], backend="z3som", mode="RING", functions=sorted(set(ALIASES.values())), clause=c, no_checks=True,
                  cbmc_flags=["--unwind", "6", "--no-signed-overflow-check", "--object-bits", "10"], timeout=600, replay=rp,
                  assumptions=["RING: identities hold for every quaternion over Z/2^32 (degree <= 4, 8 variables, small coefficients) and specialise to the property at unit norm"])
-            for n, c in UNITS]
+            for n, c in UNITS] + comp_units(tier)
+
+
+HC = os.path.join(VERIF, "harness", "c10_comp.c")
+FDRIVER = '''#include "ImathQuat.h"
+using namespace IMATH_INTERNAL_NAMESPACE;
+void use10f (Quat<float> &a, Quat<float> &b, Quat<float> &c, Quat<float> &d, float t)
+{
+    a = intermediate (a, b, c); a = squad (a, b, c, d, t); a = spline (a, b, c, d, t); a = slerp (a, b, t); a = slerpShortestArc (a, b, t);
+    a = b.inverse (); a = b.log (); a = b.exp (); a.normalize (); a = b * c; a = t * b; a = b + c; a = -b; t = a ^ b;
+}
+'''
+QF = "const Quat<float> &"
+FALIASES = {"intermediate": "intermediate<float>(%s, %s, %s)" % (QF, QF, QF), "squad": "squad<float>(%s, %s, %s, %s, float)" % (QF, QF, QF, QF),
+            "spline": "spline<float>(%s, %s, %s, %s, float)" % (QF, QF, QF, QF), "slerp": "slerp<float>(%s, %s, float)" % (QF, QF),
+            "slerpShortestArc": "slerpShortestArc<float>(%s, %s, float)" % (QF, QF), "inverse": "Quat<float>::inverse() const", "log": "Quat<float>::log() const",
+            "exp": "Quat<float>::exp() const", "normalize": "Quat<float>::normalize()", "qmul": "operator*<float>(%s, %s)" % (QF, QF), "smul": "operator*<float>(float, %s)" % QF,
+            "qadd": "operator+<float>(%s, %s)" % (QF, QF), "qneg": "operator-<float>(%s)" % QF, "qdot": "operator^<float>(%s, %s)" % (QF, QF)}
+COMP = [("shortestArc", ["slerpShortestArc", "slerp"], "slerpShortestArc(q1,q2,t) == slerp(q1, (q1^q2) >= 0 ? q2 : -q2, t): never the long way round"),
+        ("squad", ["squad", "slerp"], "squad(q1,qa,qb,q2,t) == slerp(slerp(q1,q2,t), slerp(qa,qb,t), 2t(1-t))"),
+        ("intermediate", ["intermediate", "inverse", "log", "exp", "normalize", "qmul"], "intermediate(q0,q1,q2) == normalized(q1 * exp(-1/4 (log(q1^-1 q0) + log(q1^-1 q2)))) (operand order: quaternions do not commute)"),
+        ("spline", ["spline", "squad", "intermediate"], "spline(q0,q1,q2,q3,t) == squad(q1, intermediate(q0,q1,q2), intermediate(q1,q2,q3), q2, t)")]
+
+
+def comp_units(tier):
+    ex = extract.run_extraction("c10fx", FDRIVER, sorted(set(FALIASES.values())), outdir=GEN)
+    txt = "\n".join("#define F_%s %s" % (a, ex.names[s]) for a, s in FALIASES.items()) + "\n"
+    p = os.path.join(GEN, "c10f_names.h")
+    if not os.path.exists(p) or open(p).read() != txt:
+        open(p, "w").write(txt)
+    EXTRACTION["c10fx"] = {"functions": len(ex.order), "differential": {k: ex.diff.get(k) for k in ("tested", "cases")}, "skipped": ex.diff.get("skipped", [])}
+    exs = extract.run_extraction("c10fs", FDRIVER, sorted(set(FALIASES.values())), outdir=GEN, diff=False,
+                                 extern_patterns=[(r"^intermediate\(", "cxx2c_c10_intermediate"), (r"^squad\(", "cxx2c_c10_squad")])
+    assert all(exs.names[v] == ex.names[v] for v in FALIASES.values())
+    EXTRACTION["c10fs"] = {"functions": len(exs.order), "note": "same functions with calls to intermediate / squad left external (pure-function models) for the modular spline unit; differential validation is that of c10fx"}
+    rp = {"src": HC, "lang": "c", "cxx": [ex.shim_cpp], "includes": [GEN] + ex.includes}
+    return [Unit("c10.comp." + n, HC, "h_comp_" + n, includes=[GEN], backend=os.environ.get("C10_BE", "kissat" if n == "intermediate" else "cvc5"), mode="ABS", defines=["CXX2C_ABS_ARITH", "CXX2C_ABS_LIBM"] + (["C10_MODULAR"] if n == "spline" else []), functions=[FALIASES[f] for f in fns], clause=c,
+                 no_checks=True, cbmc_flags=["--unwind", "6", "--no-signed-overflow-check", "--object-bits", "10"], timeout=600, replay=rp,
+                 assumptions=["+ - * / and libm uninterpreted: only the composition structure (which library operations, in which operand order) is decided; the analytic clauses (tangent continuity, unit norm, endpoint values) are not"])
+            for n, fns, c in COMP]
 
 
 def extra_coverage(units, tier):
